@@ -53,7 +53,7 @@ def generate(seed, batch):
         sub = rng.random() < 0.7
         scen['mat'] = {
             'n': n, 'nnull': nnull, 'density': rng.choice([1.0, 0.5, 0.2, 0.1]),
-            'cond_exp': rng.choice([0.5, 1.0, 2.0, 4.0]), 'clustered': rng.random() < 0.3,
+            'cond_exp': rng.choice([0.5, 1.0, 2.0, 4.0]), 'clustered': rng.random() < 0.3, 'chain': rng.random() < 0.12,
             'kg': rng.choice(['nsd-full', 'nsd-full', 'minus-identity', 'nsd-lowrank', 'w-only', 'mixed']),
             'rank': rng.randint(1, max(1, n)), 'mseed': rng.getrandbits(40),
             'lam_min': rng.uniform(1.05, 30.0) if sub else rng.uniform(0.05, 0.95),
